@@ -18,7 +18,7 @@ def numba_cache_for_tree():
     for d, dirs, files in sorted(os.walk(root)):
         dirs.sort()
         for f in sorted(files):
-            if f.endswith(".py"):
+            if f.endswith((".py", ".toml", ".zip")):
                 p = os.path.join(d, f)
                 st = os.stat(p)
                 h.update(("%s:%d:%d;" % (p, st.st_mtime_ns, st.st_size)).encode())
@@ -33,6 +33,19 @@ def numba_cache_for_tree():
             shutil.rmtree(o, ignore_errors=True)
         os.makedirs(d, exist_ok=True)
     os.environ["NUMBA_CACHE_DIR"] = d
+    # TidalPy copies its default configuration (defaultc.py) and the shipped world configurations (WorldPack.zip) into the user's
+    # data directory on first use and reads THOSE copies ever after: without a fresh data directory per tree a change to the defaults
+    # or to a shipped world would never reach the code under test (seen: a repaired default kept failing). platformdirs honours
+    # XDG_DATA_HOME; the directory is keyed like the numba cache.
+    xbase = os.path.join(core.VERIF, ".scratch", "xdg_data")
+    os.makedirs(xbase, exist_ok=True)
+    xd = os.path.join(xbase, h.hexdigest()[:16])
+    if not os.path.isdir(xd):
+        import shutil
+        for o in sorted((os.path.join(xbase, x) for x in os.listdir(xbase)), key=os.path.getmtime)[:-1]:
+            shutil.rmtree(o, ignore_errors=True)
+        os.makedirs(xd, exist_ok=True)
+    os.environ["XDG_DATA_HOME"] = xd
     return d
 
 
